@@ -65,7 +65,9 @@ def atoms():
     return ATOMS + [FX.Base(), FX.Left(), FX.Both(), FX.Outer.Inner(), FX.MyList([1]), FX.MyDict(a=1), FX.WithMeta(), FX.Falsy(),
                     FX.Base, FX.Both, int, len, FX.a_function, (lambda: 0), FX.a_generator(),
                     # instances of generic / protocol classes, an enum member, a namedtuple, the singletons whose types have no builtin name
-                    FX.Repo1(), FX.Impl1(), FX.Color.RED, FX.Pair(1, "s"), NotImplemented, FX.Base.__dict__]
+                    FX.Repo1(), FX.Impl1(), FX.Color.RED, FX.Pair(1, "s"), NotImplemented, FX.Base.__dict__,
+                    # C-level callables (method descriptor, slot wrapper, method wrapper, classmethod descriptor): their classes have no name anywhere
+                    str.upper, int.__add__, (1).__add__, dict.__dict__["fromkeys"]]
 
 
 def vals(depth=2, width=2, limit=None, rnd=None):
